@@ -51,3 +51,4 @@ def check(ctx):
     mpoham.channels(ctx)
     ctx.floor("HAM-mps", 12)
     canon.gauge_moves(ctx)   # the values C02 compares are read off moved orthogonality centres
+    drivers.adapter_column_order(ctx)
